@@ -4,8 +4,8 @@ package main
 // selected by the function's integer model, plus the contract-level functions that map onto them.
 
 import (
-	"go/types"
 	"fmt"
+	"go/types"
 	"math/big"
 	"strings"
 )
